@@ -124,6 +124,8 @@ def text(op):
         return 'd,(%s),,e' % lit(op[1])
     if k == 'nestj':            # the tuple made by a plain Join of the key and the dictionary (a dictionary is an atom)
         return 'd,%s,e' % lit(op[1])
+    if k == 'nestl':            # the tuple on the left of the dictionary
+        return '((%s),,e),d' % lit(op[1])
     if k == 'nfind':
         return '(d?%s)?%s' % (lit(op[1]), lit(op[2]))
     raise ValueError(op)
@@ -168,7 +170,7 @@ def apply(m, op):
         r = ('pairsval', m.resolve(oid))
         m.objs.pop()
         return r
-    if k in ('nest', 'nestj'):
+    if k in ('nest', 'nestj', 'nestl'):
         m.objs[m.vars['d']][tagkey(op[1])] = (op[1], ('ref', m.vars['e']))
         return ('dict', m.vars['d'])
     if k == 'nfind':
@@ -218,6 +220,7 @@ def enabled(m, keys, vals, nest):
         if not _reaches(m, m.vars['e'], m.vars['d']):
             ops.append(('nest', Y('n')))
             ops.append(('nestj', S('ab')))      # a two-character string key: looks like a [k v] pair to a careless test
+            ops.append(('nestl', Y('n')))
     for nk in (Y('n'), S('ab')):
         if nest and m.vars['d'] is not None and tagkey(nk) in m.objs[m.vars['d']]:
             for k in keys[:3]:
